@@ -369,3 +369,96 @@ func Generate(seed int64, caseNo int, cfg Config) *Program {
 	g.emit(Step{Op: "close"})
 	return g.p
 }
+
+// GenerateCursor builds a cursor-centred case (C05): a bucket state of a
+// chosen size class, then a write transaction that puts and deletes (whole
+// ranges: front, middle, end, everything) and runs many cursor call
+// sequences over the resulting mix of on-disk pages and materialised,
+// possibly empty, nodes; the same sequences run again after commit in a read
+// transaction.
+func GenerateCursor(seed int64, caseNo int, pageSize int, opts OpenOpts) *Program {
+	r := rand.New(rand.NewSource(seed*1000003 + int64(caseNo)*7919 + 5))
+	sizes := []int{0, 1, 3, 12, 60, 250, 900, 2500}
+	n := sizes[caseNo%len(sizes)]
+	if pageSize >= 4096 && n > 900 {
+		n = 900
+	}
+	cfg := Config{Profile: "cursor", PageSize: pageSize, KeySpace: n + 10, NoBigKeys: true}
+	cfg.defaults()
+	g := &genState{r: r, cfg: cfg, sim: NewSim(), p: &Program{Name: "cursor", Seed: seed, Case: caseNo}}
+	opts.PageSize = pageSize
+	g.emit(Step{Op: "open", Opts: &opts})
+	g.emit(Step{Op: "begin", W: true})
+	g.emit(Step{Op: "create", N: 0})
+	p := []int{0}
+	vlen := []int{0, 8, 40, 100, pageSize / 6}[r.Intn(5)]
+	for i := 0; i < n; i++ {
+		g.emit(Step{Op: "put", P: p, K: &K{ID: i}, V: &V{Seed: uint32(i), Len: vlen}})
+	}
+	// nested buckets among the keys
+	nb := r.Intn(4)
+	for i := 0; i < nb; i++ {
+		g.emit(Step{Op: "create", P: p, N: 1 + r.Intn(9)})
+	}
+	g.emit(Step{Op: "commit"})
+	for round := 0; round < 3; round++ {
+		g.emit(Step{Op: "begin", W: true})
+		// uncommitted edits
+		ne := r.Intn(6)
+		for e := 0; e < ne; e++ {
+			switch r.Intn(10) {
+			case 0, 1, 2, 3, 4, 5:
+				lo, hi := r.Intn(n+1), r.Intn(n+1)
+				switch r.Intn(6) {
+				case 0:
+					lo = 0
+				case 1:
+					hi = n + 5
+				case 2:
+					lo, hi = 0, n+5
+				case 3: // narrow: exactly around one leaf's worth
+					hi = lo + 5 + r.Intn(30)
+				}
+				if lo > hi {
+					lo, hi = hi, lo
+				}
+				how := ""
+				if r.Intn(3) == 0 {
+					how = "cursor"
+				}
+				g.emit(Step{Op: "delRange", P: p, K: &K{ID: lo}, K2: &K{ID: hi, Len: 40}, How: how})
+			case 6, 7:
+				m := 1 + r.Intn(20)
+				for i := 0; i < m; i++ {
+					g.emit(Step{Op: "put", P: p, K: &K{ID: r.Intn(n + 10)}, V: &V{Seed: r.Uint32(), Len: vlen}})
+				}
+			case 8:
+				g.emit(Step{Op: "del", P: p, K: &K{ID: r.Intn(n + 10)}})
+			case 9:
+				g.emit(Step{Op: "create", P: p, N: 1 + r.Intn(9)})
+			}
+		}
+		g.fullScan(p)
+		seqs := 12
+		for s := 0; s < seqs; s++ {
+			g.emit(Step{Op: "cursor", P: p, Cur: g.cursorCalls(1 + r.Intn(40))})
+		}
+		g.emit(Step{Op: "forEach", P: p})
+		if r.Intn(3) == 0 {
+			g.emit(Step{Op: "cursor", Cur: g.cursorCalls(1 + r.Intn(10))}) // root cursor
+		}
+		if r.Intn(4) == 0 {
+			g.emit(Step{Op: "rollback"})
+		} else {
+			g.emit(Step{Op: "commit"})
+		}
+		g.emit(Step{Op: "begin", W: false})
+		g.fullScan(p)
+		for s := 0; s < 5; s++ {
+			g.emit(Step{Op: "cursor", P: p, Cur: g.cursorCalls(1 + r.Intn(40))})
+		}
+		g.emit(Step{Op: "rollback"})
+	}
+	g.emit(Step{Op: "close"})
+	return g.p
+}
